@@ -52,7 +52,7 @@ func (pry *Priority) SetWeight(w byte) {
 }
 
 func (pry *Priority) Deserialize(fr *FrameHeader) (err error) {
-	if len(fr.payload) < 5 {
+	if len(fr.payload) != 5 {
 		err = ErrMissingBytes
 	} else {
 		pry.stream = http2utils.BytesToUint32(fr.payload) & (1<<31 - 1)
